@@ -152,7 +152,8 @@ impl Run {
 
     /// Write evidence, print verdict lines, return exit code.
     pub fn finish(self, mut coverage: Map<String, Value>) -> i32 {
-        let known = load_known_findings();
+        let fragment_mode = std::env::var("VKIT_FRAGMENT").is_ok();
+        let known = if fragment_mode { vec![] } else { load_known_findings() };
         let mut violations = 0;
         let mut known_hits = vec![];
         let mut sigs = Map::new();
@@ -176,6 +177,9 @@ impl Run {
                 ));
             } else {
                 violations += 1;
+                if fragment_mode {
+                    continue;
+                }
                 let dir = PathBuf::from(VERIF_DIR)
                     .join("replays")
                     .join(&self.prop);
@@ -240,6 +244,17 @@ impl Run {
             "wall_s": self.start.elapsed().as_secs_f64(),
             "violations": violations,
         });
+        // fragment mode: another engine merges this run into its own
+        if let Ok(frag) = std::env::var("VKIT_FRAGMENT") {
+            let failures: Vec<Value> = self
+                .failures
+                .iter()
+                .map(|(s, f)| json!({"sig": s, "what": f.what, "count": f.count, "witness": f.witness}))
+                .collect();
+            let doc = json!({"evidence": ev, "failures": failures, "machinery_errors": self.machinery_errors});
+            let _ = std::fs::write(&frag, serde_json::to_vec(&doc).unwrap());
+            return if self.machinery_errors.is_empty() { 0 } else { 2 };
+        }
         let evdir = PathBuf::from(VERIF_DIR).join("evidence");
         let _ = std::fs::create_dir_all(&evdir);
         let evpath = evdir.join(format!("{}.json", self.prop));
